@@ -249,6 +249,7 @@ def replay(path, quiet=False):
     3 = a different violation."""
     body = load_replay(path)
     cid = body['check']
+    seams.install()     # (before the check module imports ZODB)
     mod = load_check(cid)
     res = run_one(mod, body['case'])
     want = body.get('expect')
